@@ -1,4 +1,4 @@
-import BfeVerif.C11.PathElems
+import BfeVerif.C11.Shapes
 /-!
   C11 — basic route rules follow the documented precedence.  Property theorems only.
 -/
@@ -80,6 +80,40 @@ theorem C11_spec_port_ignored (T : List Triple) (h port path : List Char) (hh : 
     specLookupBasic T (h ++ ':' :: port) path = specLookupBasic T (h ++ [':']) path := by
   simp [specLookupBasic, stripPort_append h port hh, stripPort_append h [] hh]
 
+/-! ### rule shapes: what the loader lets through, and what the accepted-but-undocumented shapes do -/
+
+/-- `checkHostInBasicRule`: a host pattern is non-empty and `*` occurs only as the whole pattern or as the whole
+    first label — `*est.com`, `*.*.com`, `a.*.com`, `` are rejected (examples below), as the documentation demands. -/
+theorem C11_loader_host_shape (h : List Char) (hc : checkHost h = true) :
+    h ≠ [] ∧ ('*' ∉ h ∨ h = ['*'] ∨ ∃ r, h = '*' :: '.' :: r ∧ '*' ∉ r) := checkHost_shape h hc
+
+/-- `checkPathInBasicRule`: non-empty and `*` only as the last character — `/a*b`, `/*/*` are rejected; but
+    `/fo*` and patterns without leading `/`, which the documentation calls illegal, are ACCEPTED. -/
+theorem C11_loader_path_shape (p : List Char) (hc : checkPath p = true) :
+    p ≠ [] ∧ ('*' ∉ p ∨ (p.getLast? = some '*' ∧ '*' ∉ p.dropLast)) := checkPath_shape p hc
+
+/-- accepted `/fo*` is harmless: it is exactly the documented rule `/fo/*` (same tree key), so it matches `/fo`,
+    `/fo/x` and never `/foo`. -/
+theorem C11_slashless_prefix_is_element_rule (q : List Char) (hne : q ≠ []) (hq : q.getLast? ≠ some '/') :
+    pathKey (q ++ ['*']) = pathKey (q ++ ['/', '*']) := pathKey_slashless q hne hq
+
+/-- an accepted path pattern without leading `/` (other than the lone `*`) is dead for every absolute request path -/
+theorem C11_relative_path_pattern_dead (p path : List Char) (hp : p.head? ≠ some '/') (hstar : p ≠ ['*'])
+    (hpne : p ≠ []) (habs : path.head? = some '/') :
+    (p == path) = false ∧ pathMatchPrefix p path = none := relative_pattern_dead p path hp hstar hpne habs
+
+/-- an accepted exact host pattern containing `:` (`a.com:80`) is dead at `LookupCluster` (silently: the loader
+    does not report it) -/
+theorem C11_port_host_pattern_dead (p host : List Char) (hn : ∀ rest, p ≠ '*' :: rest) (hc : ':' ∈ p) :
+    hostMatch p (normHost (stripPort host)) = none := port_pattern_dead p host hn hc
+
+example : checkHost "*est.com".toList = false ∧ checkHost "*.*.com".toList = false ∧ checkHost "a.*.com".toList = false
+    ∧ checkHost [] = false ∧ checkHost "*foo.com".toList = false := by decide
+example : checkPath "/a*b".toList = false ∧ checkPath "/*/*".toList = false ∧ checkPath [] = false := by decide
+-- accepted although route.md calls them illegal or does not mention them
+example : checkPath "/fo*".toList = true ∧ checkPath "fo".toList = true ∧ checkPath "fo*".toList = true
+    ∧ checkHost "a.com:80".toList = true ∧ checkHost "*.".toList = true ∧ checkHost ".a..com".toList = true := by decide
+
 /-! ### the documentation's tables (docs/zh_cn/introduction/route.md), on model AND spec -/
 
 def mk (rs : List (List String × List String × String)) : List Rule :=
@@ -126,6 +160,9 @@ example : M docRules "vip.b.test1.com" "/interface/d" = some "Php2" ∧ S docRul
 example : M docRules "VIP.B.Test1.com." "/other" = some "Static3" ∧ S docRules "VIP.B.Test1.com." "/other" = some "Static3" := by decide
 -- no fallback: exact host class chosen, its only path does not match, the wildcard rule 1 is NOT consulted
 example : M docRules "www.test1.com" "/x" = none ∧ S docRules "www.test1.com" "/x" = none := by decide
+-- `/fo*` behaves as `/fo/*`
+example : M [(["a"], ["/fo*"], "c")] "a" "/foo" = none ∧ M [(["a"], ["/fo*"], "c")] "a" "/fo/x" = some "c"
+    ∧ M [(["a"], ["/fo*"], "c")] "a" "/fo" = some "c" := by decide
 -- two labels under *.test1.com: not a wildcard match, and there is no any-host rule
 example : M docRules "a.c.test1.com" "/" = none ∧ S docRules "a.c.test1.com" "/" = none := by decide
 
